@@ -15,7 +15,8 @@ node / on every edge (time-reversible models), splitting of every edge (models t
 edge) } and seeded compositions of these.
 
 Outside the contract on purpose: the site-HMM (`sites_independent=False`), which is column-order dependent by
-design; discrete-time models (BH, DT) that have no branch lengths; trees with zero lengths passed *through the
+design; edge splitting / root placement for the discrete-time model BH (no branch lengths; it takes part in the column,
+order and merge contracts with one explicit stochastic matrix per edge); trees with zero lengths passed *through the
 newick* (documented: replaced by `default_length`); lengths above the upper bound 10 (clipped by the optimiser
 bounds)."""
 from __future__ import annotations
@@ -25,6 +26,8 @@ import itertools
 import json
 import math
 import random
+
+import numpy
 
 TOL = 1e-9
 
@@ -59,12 +62,14 @@ MODELS = {
     "Y98": dict(get="Y98", mt="dna", ml=3, rev=True, mp=True, fam="codon"),
     "H04G": dict(get="H04G", mt="dna", ml=3, rev=True, mp=True, fam="codon"),
     "GNC": dict(get="GNC", mt="dna", ml=3, rev=False, mp=True, fam="codon"),
+    # discrete-time (no lengths): one explicit stochastic matrix per edge; no reroot, no split
+    "BH": dict(get="BH", mt="dna", ml=1, rev=False, mp=True, fam="nuc-nogap", edge="psubs", discrete=True),
     "JTT92": dict(get="JTT92", mt="protein", ml=1, rev=True, mp=False, fam="aa"),
     "WG01+F": dict(get="WG01", mt="protein", ml=1, rev=True, mp=True, fam="aa"),
     "DSO78": dict(get="DSO78", mt="protein", ml=1, rev=True, mp=False, fam="aa"),
 }
 QUICK_MODELS = ["JC69", "K80", "F81", "HKY85", "TN93", "GTR", "GN", "ssGN", "HKY85+G4", "HKY85+edge-kappa", "dinuc",
-                "MG94HKY", "JTT92"]
+                "MG94HKY", "JTT92", "BH"]
 THOROUGH_MODELS = QUICK_MODELS + ["GTR+G2", "GY94", "CNFGTR", "MG94GTR", "Y98", "H04G", "GNC", "WG01+F", "DSO78"]
 
 PGRID = [[2.5, 0.6, 1.7, 3.1, 0.9, 1.3, 0.45], [0.4, 4.0, 1.0, 2.2, 0.7, 1.9, 3.3]]
@@ -283,10 +288,10 @@ def lnL_of(problem, expm=None):
     for i, p in enumerate(gp):
         lf.set_param_rule(p, init=grid[i % len(grid)])
     for name, length, ep, _ in edges_of(tree):
-        if problem["len"] == "rule":
+        if problem["len"] == "rule" and not cfg.get("discrete"):
             lf.set_param_rule("length", edge=name, init=length)
         for k, v in ep.items():
-            lf.set_param_rule(k, edge=name, init=v)
+            lf.set_param_rule(k, edge=name, init=numpy.array(v) if isinstance(v, list) else v)
     return float(lf.lnL)
 
 
@@ -476,6 +481,10 @@ SHAPES = {
 }
 LENS = [0.1, 1.5, 1e-3, 0.3, 0.05, 0.7, 0.2, 2.5, 0.4]
 KAPPAS = [5.0, 0.8, 2.0, 1.0, 9.0]
+PSUBS = [[[.7, .1, .1, .1], [.05, .8, .05, .1], [.2, .1, .6, .1], [.1, .2, .3, .4]],
+         [[.9, .02, .03, .05], [.1, .6, .2, .1], [.25, .25, .25, .25], [.02, .1, .08, .8]],
+         [[.5, .3, .1, .1], [.3, .5, .1, .1], [.1, .1, .4, .4], [.15, .05, .3, .5]],
+         [[.97, .01, .01, .01], [.01, .97, .01, .01], [.02, .02, .94, .02], [.3, .3, .3, .1]]]
 
 
 def make_base_tree(shape, lens_off, edge_param=None, zero_internal=False):
@@ -496,7 +505,8 @@ def make_base_tree(shape, lens_off, edge_param=None, zero_internal=False):
             e = cnt["e"]
             cnt["e"] += 1
             length = LENS[(e * 2 + lens_off) % len(LENS)]
-            ep = {edge_param: KAPPAS[(e + lens_off) % len(KAPPAS)]} if edge_param else {}
+            vals = PSUBS if edge_param == "psubs" else KAPPAS
+            ep = {edge_param: vals[(e + lens_off) % len(vals)]} if edge_param else {}
             if kids is None and not zero_done[0]:
                 length = 0.0
                 zero_done[0] = True
@@ -530,6 +540,8 @@ def rand_shape(rnd, n):
 def rand_aln(rnd, fam, names, nblocks, dup=True):
     if fam == "nuc":
         states, amb = list(NUC), ["N", "R", "Y", "-", "?"]
+    elif fam == "nuc-nogap":
+        states, amb = list(NUC), ["N", "R", "Y", "W"]
     elif fam == "dinuc":
         states, amb = DINUCS, ["NN", "AR", "YC", "NG"]
     elif fam == "codon":
@@ -657,7 +669,7 @@ def gen_order(tier, seed):
         n = len(pb["aln"])
         heavy = MODELS[pb["model"]]["fam"] != "nuc"
         perms = [list(p) for p in itertools.permutations(range(n))][1:]
-        cap = 119 if thorough else (23 if not heavy else 8)
+        cap = (119 if not heavy else 40) if thorough else (23 if not heavy else 8)
         if len(perms) > cap:
             perms = rnd.sample(perms, cap)
         for p in perms:
@@ -693,8 +705,6 @@ def gen_reroot(tier, seed):
     for idx, pb in gen_bases(tier, seed, "reroot"):
         if not MODELS[pb["model"]]["rev"]:
             continue
-        if not pb["named"] and pb["len"] == "nw":
-            pass
         for where in placements(pb["tree"], fracs_for(pb, thorough, idx)):
             yield [pb, [["reroot", where]]]
     if thorough:
@@ -710,6 +720,8 @@ def gen_split(tier, seed):
     thorough = tier == "thorough"
     rnd = random.Random(f"{seed}/split")
     for idx, pb in gen_bases(tier, seed, "split"):
+        if MODELS[pb["model"]].get("discrete"):
+            continue
         es = edges_of(pb["tree"])
         for name, length, ep, tip in es:
             for f in fracs_for(pb, thorough, idx):
@@ -719,6 +731,8 @@ def gen_split(tier, seed):
             yield [pb, [["split", {name: [0.3, 0.8][i % 2] for i, (name, *_) in enumerate(es) if i % 2 == 0}]]]
     if thorough:
         for j, pb in gen_beyond(tier, seed, "split", 400):
+            if MODELS[pb["model"]].get("discrete"):
+                continue
             es = edges_of(pb["tree"])
             for _ in range(2):
                 sub = rnd.sample(es, rnd.randrange(1, len(es) + 1))
@@ -757,7 +771,9 @@ def gen_compose(tier, seed):
                           gen_beyond(tier, seed, "compose", 300) if thorough else [])
     for idx, pb in src:
         rev = MODELS[pb["model"]]["rev"]
-        kinds = ["colperm", "repeat", "seqorder", "childorder", "split"] + (["reroot", "reroot"] if rev else [])
+        kinds = ["colperm", "repeat", "seqorder", "childorder"] + (["reroot", "reroot"] if rev else [])
+        if not MODELS[pb["model"]].get("discrete"):
+            kinds.append("split")
         for _ in range(6 if thorough else 2):
             depth = rnd.choice((2, 3)) if not thorough else rnd.choice((2, 3, 4))
             ks = [rnd.choice(kinds) for _ in range(depth)]
@@ -806,7 +822,8 @@ BOUNDED = {
         "gen": gen_order, "contract": contract_steps,
         "functions": _FUN + ["LikelihoodTreeEdge.__init__", "likelihood_tree_numba.sum_input_likelihoods",
                              "make_partial_likelihood_defns"],
-        "bound": "every order of the sequences in the alignment (<=4 tips all; 5 tips 23 seeded, thorough all 119), "
+        "bound": "every order of the sequences in the alignment (<=4 tips all; 5 tips 23 seeded, thorough all 119 for the "
+                 "plain nucleotide models and 40 seeded for the others; quick 8 for codon/protein/dinucleotide), "
                  "every combination of child orders at all nodes (quick <=16 seeded of them when more), three "
                  "consistent renamings of tips and internal nodes; " + _MODELS_TXT + "; " + _TREES_TXT,
         "rule": "a case = (problem, [seqorder p] | [childorder perms] | [relabel i]); non-trivial when the problem "
@@ -826,7 +843,7 @@ BOUNDED = {
     "split": {
         "gen": gen_split, "contract": contract_steps,
         "functions": _FUN + ["make_partial_likelihood_defns (single-child nodes)", "LikelihoodFunction.set_param_rule"],
-        "bound": "all models (each is time-homogeneous along an edge; an edge-scoped kappa is given to both parts); "
+        "bound": "all continuous-time models (each is time-homogeneous along an edge; an edge-scoped kappa is given to both parts); "
                  "every edge split at {0.5,0.25} (thorough +0.9; with set_param_rule lengths also 0 and 1), all "
                  "edges at once, every second edge at 0.3/0.8; " + _MODELS_TXT + "; " + _TREES_TXT +
                  "; thorough + 400 seeded 5-7 tip problems x 2 random edge subsets",
